@@ -6,9 +6,10 @@
 (* trace.ndjson holds one line per schedule:                                  *)
 (*   {"case":n, "prog":{"msgs":[[b,..],..],"hold":[[n,..],..],"ctl":[[op,..],..],*)
 (*                      "rd":[op,..],"cx":[{"p":proc,"c":call,"n":parts},..], *)
+(*                      "fault":[{"p":proc,"c":call,"k":write,"some":b,"kind":s},..],*)
 (*                      "closer":b},                                          *)
 (*    "ev":[event,..], "frames":[{"cls":c,"w0":i,"w1":j},..], "delivered":[m,..]} *)
-(* An event has the fields ev, proc, call, frame, part, cls, ok, res:         *)
+(* An event has the fields ev, proc, call, frame, part, cls, ok, res, cut:    *)
 (*   begin   the application of `proc` makes call number `call` (recorded by  *)
 (*           the scheduler BEFORE the goroutine is told to make the call; for *)
 (*           R: before the peer's frame is put on the transport)              *)
@@ -19,6 +20,8 @@
 (*           process' own byte stream, cls the class of the frame header      *)
 (*           ("first", "cont" [+"+fin"], "ping", "pong", "close"; "raw" for   *)
 (*           an extra; "bad"/"foreign.." never accepted); ok = it succeeded   *)
+(*           cut = "some"/"none" (else ""): the write FAILED with the         *)
+(*           transport open after a non-empty / empty prefix was accepted     *)
 (*   close   net.Conn.Close by `proc`, same total order                       *)
 (*   ret     call number `call` of `proc` returned class `res` ("nil",        *)
 (*           "closesent", "timeout", "other"; "any" for a default handler of  *)
@@ -64,8 +67,11 @@ TWriteEv(e) == /\ e.ev = "twrite"
                /\ e.call = call[e.proc]
                /\ e.frame = (IF e.proc = "D" THEN fr ELSE PartsDone(e.proc) + 1)
                /\ e.cls = WriteCls(e.proc)
-               /\ e.ok = ~closed
-               /\ TWrite(e.proc)
+               /\ IF e.cut = ""
+                    THEN e.ok = ~closed /\ TWrite(e.proc)
+                    ELSE /\ ~e.ok /\ FaultOf(e.proc) # {}
+                         /\ prog.fault[CHOOSE k \in FaultOf(e.proc) : TRUE].some = (e.cut = "some")
+                         /\ TFault(e.proc)
                /\ WholeFrames' /\ AfterCloseWire' /\ InOrder' /\ MsgIntact'
 
 TResume(e) == /\ e.ev = "resume"
@@ -80,7 +86,12 @@ TCloseEv(e) == /\ e.ev = "close"
 TRet(e) == /\ e.ev = "ret"
            /\ e.proc \in Procs
            /\ Len(res[e.proc]) >= e.call
-           /\ e.res # "any" => res[e.proc][e.call].r = e.res
+           /\ e.res # "any" =>
+                 \/ res[e.proc][e.call].r = e.res
+                 \* the error of a transport write that timed out - also as the sticky error of later calls - looks
+                 \* like the write timeout error
+                 \/ /\ e.res = "timeout" /\ res[e.proc][e.call].r = "other"
+                    /\ \E k \in 1..Len(prog.fault) : prog.fault[k].kind = "timeout"
            /\ UNCHANGED vars
 
 \* the frames the model's wire consists of (WholeFrames holds: guard of TWriteEv)
@@ -88,6 +99,11 @@ RECURSIVE ModelFrames(_)
 ModelFrames(k) ==
   IF k > Len(wire) THEN <<>>
   ELSE LET e == wire[k] IN
+       IF IsCut(e) THEN <<[cls |-> "partial", w0 |-> k, w1 |-> k]>>      \* (the last entry: CutIsLast)
+       ELSE IF k < Len(wire) /\ IsCut(wire[Len(wire)]) /\ wire[Len(wire)].proc = e.proc /\ wire[Len(wire)].call = e.call
+               /\ (e.proc = "D" => wire[Len(wire)].frame = e.frame)
+         THEN <<[cls |-> "partial", w0 |-> k, w1 |-> Len(wire)]>>         \* the frame whose later part was cut
+       ELSE
        IF e.part = "hdr" /\ HasExtra(e)
          THEN IF k < Len(wire)
                 THEN <<[cls |-> DataCls(e.call, e.frame), w0 |-> k, w1 |-> k + 1]>> \o ModelFrames(k + 2)
